@@ -656,6 +656,14 @@ main(int argc, char **argv) {
       status = -1;
     } else {
       builder.write_code(output_code, the_output_include, def);
+
+      // Flush and close explicitly, so that a failed write is not lost in
+      // the destructor.
+      output_code.close();
+      if (output_code.fail()) {
+        nout << "Error writing to " << output_code_filename << "\n";
+        status = -1;
+      }
     }
     VERIF_EVENT("{\"e\":\"WriterDone\",\"ch\":\"oc\",\"fail\":" << (output_code.fail() ? 1 : 0) << ",\"status\":" << status << "}");
   }
@@ -675,6 +683,12 @@ main(int argc, char **argv) {
       status = -1;
     } else {
       InterrogateDatabase::get_ptr()->write(output_data, def);
+
+      output_data.close();
+      if (output_data.fail()) {
+        nout << "Error writing to " << output_data_filename << "\n";
+        status = -1;
+      }
     }
     VERIF_EVENT("{\"e\":\"WriterDone\",\"ch\":\"od\",\"fail\":" << (output_data.fail() ? 1 : 0) << ",\"status\":" << status << "}");
   }
@@ -689,6 +703,12 @@ main(int argc, char **argv) {
       status = -1;
     } else {
       InterrogateDatabase::get_ptr()->write_text(output_text);
+
+      output_text.close();
+      if (output_text.fail()) {
+        nout << "Error writing to " << output_text_filename << "\n";
+        status = -1;
+      }
     }
     VERIF_EVENT("{\"e\":\"WriterDone\",\"ch\":\"oh\",\"fail\":" << (output_text.fail() ? 1 : 0) << ",\"status\":" << status << "}");
   }
